@@ -1,56 +1,31 @@
-use std::ops::Index;
-
-use regex::Captures;
-use regex::Regex;
-
-use crate::util::error_exit;
-
 pub fn is_glob(s: &str) -> bool {
     s.contains("*") || s.contains('?')
 }
 
 pub fn convert_glob_to_pattern(s: &str) -> String {
-    let string = s.to_string();
-    let regex = Regex::new("(\\?|\\.|\\*|\\[|\\]|\\(|\\)|\\^|\\$)").unwrap();
-    let string = regex.replace_all(&string, |c: &Captures| {
-        match c.index(0) {
-            "." => "\\.",
-            "*" => ".*",
-            "?" => ".",
-            "[" => "\\[",
-            "]" => "\\]",
-            "(" => "\\(",
-            ")" => "\\)",
-            "^" => "\\^",
-            "$" => "\\$",
-            _ => error_exit("Error parsing glob expression", s),
-        }
-        .to_string()
-    });
-
-    format!("^(?i){}$", string)
+    convert_wildcards_to_pattern(s, '*', '?')
 }
 
 pub fn convert_like_to_pattern(s: &str) -> String {
-    let string = s.to_string();
-    let regex = Regex::new("(%|_|\\?|\\.|\\*|\\[|\\]|\\(|\\)|\\^|\\$)").unwrap();
-    let string = regex.replace_all(&string, |c: &Captures| {
-        match c.index(0) {
-            "%" => ".*",
-            "_" => ".",
-            "?" => ".?",
-            "." => "\\.",
-            "*" => "\\*",
-            "[" => "\\[",
-            "]" => "\\]",
-            "(" => "\\(",
-            ")" => "\\)",
-            "^" => "\\^",
-            "$" => "\\$",
-            _ => error_exit("Error parsing LIKE expression", s),
-        }
-        .to_string()
-    });
+    convert_wildcards_to_pattern(s, '%', '_')
+}
 
-    format!("^(?i){}$", string)
+/// Translates a wildcard pattern to an anchored, case-insensitive regular expression:
+/// `many` stands for any run of characters, `one` for exactly one character,
+/// every other character only for itself.
+fn convert_wildcards_to_pattern(s: &str, many: char, one: char) -> String {
+    let mut pattern = String::with_capacity(s.len() + 8);
+    let mut buf = [0u8; 4];
+
+    for c in s.chars() {
+        if c == many {
+            pattern.push_str(".*");
+        } else if c == one {
+            pattern.push('.');
+        } else {
+            pattern.push_str(&regex::escape(c.encode_utf8(&mut buf)));
+        }
+    }
+
+    format!("^(?is){}$", pattern)
 }
